@@ -61,6 +61,10 @@ pub enum OpKind {
     SetOptGet(Vec<u8>),
     /// one element of an MGET reply (nil for a missing key and for a key that is not a string)
     MGetElem,
+    /// EVAL of a read script that keeps its result in a *global* Lua variable assigned only when the key exists: every
+    /// script run starts from a clean interpreter state, so for a missing key it answers nil - never what an earlier
+    /// run (of any client, on any key) left behind
+    EvalGlobalGet,
     /// SET k v PX 1..3: the value may vanish at any later instant (production clock)
     SetPxShort(Vec<u8>),
     /// SET k v PX 600000: a deadline that never arrives during a history - but the key now *has* one, so the
@@ -119,7 +123,7 @@ pub fn apply_nd(st: &KeyState, op: &OpKind) -> Vec<(KeyState, Tree)> {
             let (ns, r) = apply(&KeyState::Str(s.clone()), op);
             let mut outs = vec![];
             match (&ns, op) {
-                (KeyState::Str(x), OpKind::Get | OpKind::MGetElem | OpKind::Append(_) | OpKind::Incr | OpKind::SetNx(_) | OpKind::SetOptNx(_) | OpKind::LPush(_) | OpKind::LPop | OpKind::LLen) => outs.push((KeyState::Vol(x.clone()), r)),
+                (KeyState::Str(x), OpKind::Get | OpKind::EvalGlobalGet | OpKind::MGetElem | OpKind::Append(_) | OpKind::Incr | OpKind::SetNx(_) | OpKind::SetOptNx(_) | OpKind::LPush(_) | OpKind::LPop | OpKind::LLen) => outs.push((KeyState::Vol(x.clone()), r)),
                 (KeyState::Str(x), OpKind::GetSet(_) | OpKind::EvalSwap(_)) => {
                     outs.push((KeyState::Vol(x.clone()), r.clone()));
                     outs.push((ns.clone(), r));
@@ -138,6 +142,9 @@ pub fn apply(st: &KeyState, op: &OpKind) -> (KeyState, Tree) {
     let bulk = |b: &Vec<u8>| Tree::Bulk(Some(b.clone()));
     let ok = Tree::Simple(b"OK".to_vec());
     match (op, st) {
+        (OpKind::EvalGlobalGet, KeyState::Nil) => (st.clone(), Tree::Bulk(None)),
+        (OpKind::EvalGlobalGet, KeyState::Str(s)) => (st.clone(), bulk(s)),
+        (OpKind::EvalGlobalGet, KeyState::List(_)) => (st.clone(), Tree::Error(b"ERR".to_vec())),
         (OpKind::Get, KeyState::Nil) => (st.clone(), Tree::Bulk(None)),
         (OpKind::Get, KeyState::Str(s)) => (st.clone(), bulk(s)),
         (OpKind::Get, KeyState::List(_)) => (st.clone(), wrongtype()),
@@ -290,6 +297,8 @@ fn parse_opkind(s: &str) -> OpKind {
     };
     if s.starts_with("MGetElem") {
         OpKind::MGetElem
+    } else if s.starts_with("EvalGlobalGet") {
+        OpKind::EvalGlobalGet
     } else if s.starts_with("SetPxShort") {
         OpKind::SetPxShort(arg(s))
     } else if s.starts_with("SetPxLong") {
@@ -353,6 +362,7 @@ pub fn key_name(i: usize) -> String {
     }
 }
 
+const GLOBAL_GET_SCRIPT: &str = "if redis.call('EXISTS', KEYS[1]) == 1 then leaked_between_runs = redis.call('GET', KEYS[1]) end; return leaked_between_runs";
 const SWAP_SCRIPT: &str = "local v = redis.call('GET', KEYS[1]); redis.call('SET', KEYS[1], ARGV[1]); return v";
 
 async fn do_op(st: &ShardedActorState, key: &str, op: &OpKind, via: &Via, sha: Option<&str>) -> Tree {
@@ -381,6 +391,7 @@ async fn do_op(st: &ShardedActorState, key: &str, op: &OpKind, via: &Via, sha: O
                 OpKind::EvalSwap(v) if sha.is_some() && v.len() % 2 == 0 => Command::EvalSha { sha1: sha.unwrap().to_string(), keys: vec![k], args: vec![SDS::new(v.clone())] },
                 OpKind::EvalSwap(v) => Command::Eval { script: SWAP_SCRIPT.to_string(), keys: vec![k], args: vec![SDS::new(v.clone())] },
                 OpKind::MGetElem => Command::MGet(vec![k]),
+                OpKind::EvalGlobalGet => Command::Eval { script: GLOBAL_GET_SCRIPT.to_string(), keys: vec![k], args: vec![] },
                 OpKind::SetPxShort(v) | OpKind::SetPxLong(v) => Command::Set {
                     key: k,
                     value: SDS::new(v.clone()),
@@ -456,6 +467,7 @@ fn gen_op(rng: &mut Rng, client: usize, ctr: &mut u32, key: usize, lua: bool) ->
             14 => (OpKind::GetSet(uniq), Via::Generic),
             15 => (OpKind::SetNx(uniq), Via::Generic),
             16 if lua => (OpKind::EvalSwap(uniq), Via::Generic),
+            18 if lua => (OpKind::EvalGlobalGet, Via::Generic),
             17 => (OpKind::LPush(uniq), Via::Generic),
             _ => (OpKind::Get, Via::Generic),
         }
@@ -888,6 +900,7 @@ fn conn_frame(k: &[u8], op: &OpKind) -> Vec<u8> {
         OpKind::LLen => myresp::frame(&[b"LLEN", k]),
         OpKind::EvalSwap(v) => myresp::frame(&[b"EVAL", SWAP_SCRIPT.as_bytes(), b"1", k, v]),
         OpKind::MGetElem => myresp::frame(&[b"MGET", k]),
+        OpKind::EvalGlobalGet => myresp::frame(&[b"EVAL", GLOBAL_GET_SCRIPT.as_bytes(), b"1", k]),
         OpKind::SetOptNx(v) => myresp::frame(&[b"SET", k, v, b"NX"]),
         OpKind::SetOptXx(v) => myresp::frame(&[b"SET", k, v, b"XX"]),
         OpKind::SetOptGet(v) => myresp::frame(&[b"SET", k, v, b"GET"]),
